@@ -16,24 +16,28 @@ fn arg(args: &[String], name: &str) -> Option<String> {
     args.iter().position(|a| a == name).and_then(|i| args.get(i + 1).cloned())
 }
 
-/// (runs, wall-clock budget in seconds) per check and tier.
+/// (runs, wall-clock budget in seconds) per check and tier. Quick tiers are sized for roughly
+/// 15-30 s on 16 cores (the budget is only a safety net); thorough tiers for about 10 minutes.
 fn plan(check: &str, tier: &str) -> (u64, f64) {
-    let quick = tier != "thorough";
-    match check {
-        "C01" | "C02" | "C05" | "C13" | "C19" | "C14" | "C12" => {
-            if quick {
-                (6_000, 60.0)
-            } else {
-                (200_000, 600.0)
-            }
-        }
-        _ => {
-            if quick {
-                (2_000, 60.0)
-            } else {
-                (50_000, 600.0)
-            }
-        }
+    let quick: u64 = match check {
+        "C01" | "C02" | "C05" | "C12" | "C13" | "C19" => 50_000,
+        "C04" => 50_000,
+        "C17" => 40_000,
+        "C14" | "C15" => 25_000,
+        "C08" => 15_000,
+        "C03" => 10_000,
+        "C09" | "C18" => 7_000,
+        "C20" => 4_500,
+        "C10" => 2_500,
+        "C11" => 2_000,
+        "C06" => 1_500,
+        "C16" => 1_200,
+        _ => 2_000,
+    };
+    if tier == "thorough" {
+        (quick * 25, 600.0)
+    } else {
+        (quick, 75.0)
     }
 }
 
